@@ -220,7 +220,7 @@ CHECKS = {
              "delivered and stops the client (panic on the feeding goroutine = process stop in production). non-trivial = an ack issued after >=2 "
              "later markers of that vBucket and a successful save in the history",
         assumptions=HIST_ASSUME,
-        units=[rapid("TestC06_History", 6000, 400000), rapid("TestC06_RollbackBranch", 1500, 200000)],
+        units=[rapid("TestC06_History", 6000, 400000), rapid("TestC06_RollbackBranch", 1500, 200000), rapid("TestC06_AheadCheckpoint", 1, 1, 2, 8)],
         min_share=dict(any={"ack_after_2_later_markers": ["histories", 0.2], "outside_snapshot": ["histories", 0.05], "backlog_resent": ["histories", 0.1],
                             "reload_after_failover": ["histories", 0.05]}),
     ),
